@@ -217,6 +217,13 @@ func one(k *run.K) {
 	det := math.Abs(a*d - b*cc)
 	M3 := 6*M + 7
 	k.Check("transform", near(at, ta, 1e-9*M3*M3) && near(at, wantA*det, 1e-9*M3*M3), "Area(WithTransform)=%.15g, TransformXY().Area()=%.15g, exact %.15g", at, ta, wantA*det)
+	// both options together, in either order: the signed area of the transformed geometry
+	sdet := a*d - b*cc
+	s1 := ccw.Area(geom.SignedArea, geom.WithTransform(f))
+	s2 := ccw.Area(geom.WithTransform(f), geom.SignedArea)
+	s3 := ccw.TransformXY(f).Area(geom.SignedArea)
+	k.Check("transform", near(s1, wantA*sdet, 1e-9*M3*M3) && near(s2, wantA*sdet, 1e-9*M3*M3) && near(s3, wantA*sdet, 1e-9*M3*M3),
+		"signed area with transform (det %g): SignedArea,WithTransform=%.15g WithTransform,SignedArea=%.15g TransformXY().Area(SignedArea)=%.15g, exact %.15g", sdet, s1, s2, s3, wantA*sdet)
 }
 
 func runAll(c *run.Ctx) {
